@@ -7,7 +7,7 @@ import vlib
 
 BUGS = ["Bug_BytePositions", "Bug_NoTrimAdjust", "Bug_CloseAllClosesLast", "Bug_NoSwallow", "Bug_NoResetSourcePosition"]
 MC_INVARIANTS = ("ArithmeticEqualsProvenance TextIsItemsWithoutMarkers RangesInsideText SortedStable "
-                 "RegionNeverFails SwallowFormsAgree Emit")
+                 "RegionNeverFails PairingOnlyMattersWhenNested Emit")
 
 ASSUMPTIONS_C13 = [
     "attribute order is not compared (multiset); properties are compared as maps; SourcePosition is not compared (DESIGN appendix D)",
@@ -34,13 +34,14 @@ def last_json(stdout):
     return json.loads(lines[-1])
 
 
-def write_cfg(ctx, name, invariants=MC_INVARIANTS, bug=None, **consts):
+def write_cfg(ctx, name, invariants=MC_INVARIANTS, bug=None, pair_last="FALSE", **consts):
     """An MC_Markup config: constants as given, every Bug_* switch off except `bug`."""
     lines = ["SPECIFICATION Spec", "CONSTANTS"]
     for k, v in consts.items():
         lines.append("  %s = %s" % (k, v))
     for b in BUGS:
         lines.append("  %s = %s" % (b, "TRUE" if b == bug else "FALSE"))
+    lines.append("  PairLast = %s" % pair_last)
     lines.append("INVARIANTS " + invariants)
     lines.append("CHECK_DEADLOCK FALSE")
     path = ctx.path(name)
@@ -176,8 +177,36 @@ def report_diffs(ctx, diffs, origin, prop_scope=None):
 
 
 # ------------------------------------------------------------ trace validation
-def validate_trace(ctx, trace_path, label="MarkupTrace (recorded calls)"):
-    t = ctx.tlc("MarkupTrace", files=[("trace.ndjson", trace_path)], workers=1, timeout=2400, label=label)
+TRACE_CFG = """SPECIFICATION Spec
+CONSTANTS
+%s
+  PairLast = %s
+INVARIANT Done
+POSTCONDITION Accepted
+CHECK_DEADLOCK FALSE
+"""
+
+
+def same_name_nesting(items):
+    open_ = []
+    for it in items:
+        if it["k"] == "open":
+            if it["name"] in open_:
+                return True
+            open_.append(it["name"])
+        elif it["k"] == "close" and it["name"] in open_:
+            open_.remove(it["name"])
+        elif it["k"] == "closeall" or (it["k"] == "nomarkup" and it["close"] == "all"):
+            open_ = []
+    return False
+
+
+def validate_trace(ctx, trace_path, label="MarkupTrace (recorded calls)", pair_last=False):
+    name = "MarkupTrace_%s.cfg" % ("last" if pair_last else "first")
+    with open(ctx.path(name), "w") as f:
+        f.write(TRACE_CFG % ("\n".join("  %s = FALSE" % b for b in BUGS), "TRUE" if pair_last else "FALSE"))
+    t = ctx.tlc("MarkupTrace", cfg=name, files=[("trace.ndjson", trace_path), (name, ctx.path(name))], workers=1,
+                timeout=2400, label=label + (" [pairing: last open marker]" if pair_last else ""))
     res = t.printed("RESULT")
     if not res:
         raise vlib.MachineryError("MarkupTrace printed no RESULT:\n" + t.tail())
@@ -195,6 +224,13 @@ def record_and_validate(ctx, cases_path, trace_name):
     st = last_json(p.stdout)
     res = validate_trace(ctx, ctx.path(trace_name))
     events = vlib.read_ndjson(ctx.path(trace_name))
+    pairing = "first"
+    if res["bad"] and all(same_name_nesting(events[b["line"] - 1]["items"]) for b in res["bad"]):
+        # only lines with a name nested in itself diverge: the other consistent pairing
+        # (upstream's) may explain ALL lines; a mix of both readings explains nothing
+        alt = validate_trace(ctx, ctx.path(trace_name), pair_last=True)
+        if not alt["bad"]:
+            res, pairing = alt, "last"
     diffs = []
     for b in res["bad"]:
         e = events[b["line"] - 1]
@@ -216,7 +252,8 @@ def record_and_validate(ctx, cases_path, trace_name):
     sample = cps_to_str(direct[len(direct) // 2]["input"]) if direct else ""
     return {"cases": st["cases"], "events": len(events), "runner_events": st["runner_events"],
             "runner_skipped": st["runner_skipped"], "checked": res["checked"], "classes": classes,
-            "nontrivial": sum(1 for e in direct if nontrivial(e)), "sample": sample, "bad": len(res["bad"])}
+            "nontrivial": sum(1 for e in direct if nontrivial(e)), "sample": sample, "bad": len(res["bad"]),
+            "pairing": pairing, "same_name_nesting": sum(1 for e in direct if same_name_nesting(e["items"]))}
 
 
 def binding_selftest(ctx, trace_path):
